@@ -46,6 +46,22 @@ PROPS = {
                       "controller annotation bound, unsupported features disabled. Tied by running the real functions and reconcilers.",
         "level_note": "Trusted: Coq kernel, extraction, driver, harness with controller-runtime fake client. Not modelled: builder.go ERDMA annotation split, patchNodeRes.",
     },
+    "C16": {
+        "pkg": "./c16/", "test": "TestVerif_C16", "n_quick": 300, "n_thorough": 20000, "race": True,
+        "rule": "histories of 3..40 issue/rollback/success operations over a pool of 1..5 parameter sets (mutants differing in one field, "
+                "0..6 tags whose wire order is reshuffled per issue) through the real Finish/EFLO builders and the real key generator "
+                "(LRU size 500, or 1..6 to exercise eviction); tokens renamed by first occurrence. non-trivial = history with at least one "
+                "rollback followed by a later issue; distinct = distinct input vectors",
+        "trusted": ["MD5 of the JSON request modelled as an injective function of the canonical request (E7); uuid.NewString fresh (E7)"],
+        "modelled": ["encoding/json + crypto/md5 (hash = canonical encoding); k8s.io/utils/lru (modelled as move-to-front list with eviction)",
+                     "injectivity of request_key's encoding is by construction (length-prefixed fields), not a theorem"],
+        "assumptions": ["E7 hash/uuid collision-freeness", "E9: at most cap (500) distinct request hashes live in the LRU"],
+        "level_text": "Theorem over all issue/rollback/success histories (atomic steps = the generator's mutex): the generator model's tokens satisfy the "
+                      "property checker (retry reuses, otherwise fresh, in-flight tokens distinct) when the LRU never evicts; tag order does not change the hash key. "
+                      "Tied by replaying generated histories on the real builders + generator and the extracted model/checker.",
+        "level_note": "Trusted: Coq kernel, extraction, driver, harness. Hypotheses: MD5/UUID collision-free, <= cap distinct hashes. Goroutine-level race freedom is "
+                      "shown by the race detector in the thorough tier (a test), logical atomicity by the theorem.",
+    },
 }
 
 
@@ -134,3 +150,51 @@ def nt_C19(ins, outs):
     if v[0] == 3:
         return bool(v[7] or v[8] or v[9])
     return True
+
+
+# ---- C16 ---------------------------------------------------------------------
+def _c16_ops(ins):
+    v = [int(x) for x in ins]
+    i, ops = 2, []
+    for _ in range(v[1]):
+        n = v[i]
+        ops.append(v[i + 1:i + 1 + n])
+        i += 1 + n
+    return ops
+
+
+def sig_C16(ins, outs):
+    try:
+        ops = _c16_ops(ins)
+        ntags = 0
+        for o in ops:
+            if o[0] == 0 and o[2] == 0:
+                ntags = max(ntags, 1)
+        kinds = "".join("IRS"[o[0]] for o in ops)
+        return "C16:retry-token" if "R" in kinds else "C16:token"
+    except Exception:
+        return "C16:?"
+
+
+def nt_C16(ins, outs):
+    try:
+        kinds = "".join("IRS"[o[0]] for o in _c16_ops(ins))
+        return "R" in kinds and "I" in kinds[kinds.index("R"):]
+    except Exception:
+        return False
+
+
+def dist_C16(cases):
+    d = {"histories": len(cases), "ops": 0, "issue": 0, "rollback": 0, "success": 0, "rejected": 0, "small_lru": 0}
+    for _, ins, outs in cases:
+        try:
+            ops = _c16_ops(ins)
+        except Exception:
+            continue
+        d["ops"] += len(ops)
+        for o in ops:
+            d[["issue", "rollback", "success"][o[0]]] += 1
+        d["rejected"] += outs.count("-1")
+        if int(ins[0]) < 500:
+            d["small_lru"] += 1
+    return d
